@@ -333,6 +333,10 @@ class PrimitiveEquationsSpecs:
     """Rescales and casts the given non-dimensional value to timedelta64."""
     base_unit = 's'  # return value is rounded down to nearest base_unit
     dt = self.scale.dimensionalize(value, units(base_unit)).m
+    # Snap to milliseconds first so that floating point round-off in the
+    # non-dimensionalization round trip cannot push a whole number of seconds
+    # just below itself before the truncation.
+    dt = np.round(dt * 1e3) / 1e3
     if isinstance(dt, np.ndarray):
       return dt.astype(f'timedelta64[{base_unit}]')
     else:
